@@ -26,7 +26,7 @@ SKIP_FILES = {"src/parser/lex.rs": "proved against pos_ok in unit lex", "src/par
 ALLOWED = [
     (r"src/checks/type_checker\.rs", r"start_offset:0,end_offset:0,line_number:0,end_line_number:0,column:0,end_column:0", "synthetic position of a definition that has no source text (built-in stubs)"),
     (r"src/checks/type_checker\.rs", r"start_offset:insert_offset,end_offset:insert_offset,.*column:0,end_column:0", "start of the line that holds the closing brace (end_offset - end_column), column 0: consistent because columns are byte columns (col_of)"),
-    (r"src/checks/unused_vars\.rs", r"start_offset:first_tp\.position\.start_offset-1,", "the `<` one byte before the first type parameter, column - 1 on the same line"),
+    (r"src/checks/unused_vars\.rs", r"start_offset:first_tp\.position\.start_offset-1,", "the `<` one byte before the first type parameter, column - 1 on the same line (since /repo ad1965d only for a function without a name, which cannot have type parameters; with a name the span starts at the end of the name and is an obligation)"),
 ]
 
 ASSUMPTIONS = {
